@@ -2,7 +2,7 @@
 # runs every property's thorough tier once, sequentially, and prints one summary line per property
 cd "$(dirname "$0")/.."
 make -j16 all > /tmp/thorough_build.log 2>&1 || { echo "BUILD FAILED"; tail -20 /tmp/thorough_build.log; exit 2; }
-LIST=$(cat props.d/enabled.txt); [ "$1" = "reverse" ] && LIST=$(tac props.d/enabled.txt); [ -n "$2" ] && LIST=$(echo "$LIST" | head -n "$2")
+LIST=$(tr -s " \n" "\n\n" < props.d/enabled.txt | grep -E "^C[0-9]+$"); [ "$1" = "reverse" ] && LIST=$(echo "$LIST" | tac); [ -n "$2" ] && LIST=$(echo "$LIST" | head -n "$2")
 for p in $LIST; do
   t0=$(date +%s)
   out=$(nice -n 5 ./check $p --tier thorough 2>&1); rc=$?
